@@ -715,10 +715,12 @@ impl<'a> Model<'a> {
             } else if column_start <= max {
                 if column_end <= max {
                     // Case D
-                    // We displace the end
+                    // We displace the end (nothing is left if the whole range is deleted)
                     let mut new_column = col.clone();
                     new_column.max = max - column_count;
-                    new_columns.push(new_column);
+                    if new_column.min <= new_column.max {
+                        new_columns.push(new_column);
+                    }
                 } else {
                     // Case E
                     let mut new_column = col.clone();
